@@ -238,10 +238,7 @@ func hookInWriteTxn(ctx context.Context, point string) {
 	if s == nil {
 		return
 	}
-	t := s.lookup()
-	if t == nil {
-		return
-	}
+	t := s.lookup() // nil when the driver itself runs the transaction
 	s.mu.Lock()
 	s.PointHits[point]++
 	s.mu.Unlock()
